@@ -171,6 +171,10 @@ func checkC06(c C06Case, o *Obs) error {
 		if err := compare("File(gzip-compressed *.gz file)", func(cb func(Item) bool) { codec.File(gz, cb) }); err != nil {
 			return err
 		}
+		multi := writeTemp(text, "."+c.Format+".gz", 3)
+		if err := compare("File(*.gz file made of three concatenated gzip members)", func(cb func(Item) bool) { codec.File(multi, cb) }); err != nil {
+			return err
+		}
 		// The value returned by File(path) stands for the file: ranging over it again (also after
 		// an abandoned pass) yields the file's items again.
 		again := codec.FileSeq(plain)
@@ -212,12 +216,12 @@ func compare2(codec *Codec, text []byte, base []Item, chunks []int, limit int) e
 
 // smallInputs: about ten short inputs per format (well-formed and malformed).
 var smallInputs = map[string][]string{
-	"fasta":  {">a\nAC\n", ">a\r\nAC\r\nGT\r\n", ">\n\n", "AC\n>b\nG", ">a\n>b\n", "\n\n>x\nA", ">a\rAC\r", "", ">", "A>B\n>c\n"},
-	"fastq":  {"@a\nAC\n+\nII\n", "@a\r\nAC\r\n+\r\nII\r\n", "@a\nAC\n+\nI\n", "@a\nAC\n", "a\nAC\n+\nII\n", "@\n\n+\n\n", "@a\nA\n+a\nI\n@b\nC\n+\nJ", "", "@", "@a\nAC\nII\n"},
-	"sam":    {"@HD\tVN:1\nq\t0\tr\t1\t2\t3M\t=\t4\t5\tACG\tIII\n", "q\t0\tr\t1\t2\t3M\t=\t4\t5\tACG\tIII\tX:i:1\r\n", "q\t0\tr\n", "\n\n", "q\tx\tr\t1\t2\t3M\t=\t4\t5\tACG\tIII\n", "@a", "", "q\t0\tr\t1\t2\t3M\t=\t4\t5\tA\t\"I\nr\t0\tr\t1\t2\t3M\t=\t4\t5\tA\tI\n"},
-	"samh":   {"@HD\tVN:1\nq\t0\tr\t1\t2\t3M\t=\t4\t5\tACG\tIII\n", "@a\r\n@b\r\n", "@CO\t\"x\" y\nq\t0\tr\n", "", "@", "q\t0\tr\t1\t2\t3M\t=\t4\t5\tACG\tIII\tXX:A:\xff\n"},
-	"bed":    {"c\t1\t2\n", "c\t1\t2\r\nd\t3\t4\r\n", "#x\nc\t1\t2\tn\t5\t+\n", "c\t1\n", "c\t1\t2\nd\t3\n", "c\t1\t2\tn\"m\n", "\n", "", "c\tx\t2\n", "c\t1\t2\tn\t5\t+\t1\t2\t1,2,3\t2\t1,2\t3,4"},
-	"newick": {"(a,b)c;", "(a:1,b:2.5)c:3;\n(d)e;", "a;b;c;", "(a,b", "'a b';", "(a,b));", "", ";", "( a , b ) c ;\r\n", "a:x;", "'a''b':1e2;"},
+	"fasta":  {">a\nAC\n", ">a\r\nAC\r\nGT\r\n", "\x1f\x8b\n>a\nAC\n", "\x1f\x8b\x08\x00>a\nAC\n", ">\n\n", "AC\n>b\nG", ">a\n>b\n", "\n\n>x\nA", ">a\rAC\r", "", ">", "A>B\n>c\n"},
+	"fastq":  {"@a\nAC\n+\nII\n", "@a\r\nAC\r\n+\r\nII\r\n", "\x1f\x8b@a\nAC\n+\nII\n", "@a\nAC\n+\nI\n", "@a\nAC\n", "a\nAC\n+\nII\n", "@\n\n+\n\n", "@a\nA\n+a\nI\n@b\nC\n+\nJ", "", "@", "@a\nAC\nII\n"},
+	"sam":    {"@HD\tVN:1\nq\t0\tr\t1\t2\t3M\t=\t4\t5\tACG\tIII\n", "\x1f\x8bq\t0\tr\t1\t2\t3M\t=\t4\t5\tACG\tIII\n", "q\t0\tr\t1\t2\t3M\t=\t4\t5\tACG\tIII\tX:i:1\r\n", "q\t0\tr\n", "\n\n", "q\tx\tr\t1\t2\t3M\t=\t4\t5\tACG\tIII\n", "@a", "", "q\t0\tr\t1\t2\t3M\t=\t4\t5\tA\t\"I\nr\t0\tr\t1\t2\t3M\t=\t4\t5\tA\tI\n"},
+	"samh":   {"@HD\tVN:1\nq\t0\tr\t1\t2\t3M\t=\t4\t5\tACG\tIII\n", "\x1f\x8bq\t0\tr\t1\t2\t3M\t=\t4\t5\tACG\tIII\n", "@a\r\n@b\r\n", "@CO\t\"x\" y\nq\t0\tr\n", "", "@", "q\t0\tr\t1\t2\t3M\t=\t4\t5\tACG\tIII\tXX:A:\xff\n"},
+	"bed":    {"c\t1\t2\n", "c\t1\t2\r\nd\t3\t4\r\n", "\x1f\x8bc\t1\t2\nd\t3\t4\n", "\x1f\x8b\x08\x00\t1\t2\n", "#x\nc\t1\t2\tn\t5\t+\n", "c\t1\n", "c\t1\t2\nd\t3\n", "c\t1\t2\tn\"m\n", "\n", "", "c\tx\t2\n", "c\t1\t2\tn\t5\t+\t1\t2\t1,2,3\t2\t1,2\t3,4"},
+	"newick": {"(a,b)c;", "(a:1,b:2.5)c:3;\n(d)e;", "(\x1f\x8b,b)c;", "\x1f\x8b;", "a;b;c;", "(a,b", "'a b';", "(a,b));", "", ";", "( a , b ) c ;\r\n", "a:x;", "'a''b':1e2;"},
 }
 
 func exhaustiveC06(thorough bool, emit func(C06Case) bool) {
